@@ -15,6 +15,23 @@ Arguments N.sub : simpl never.
 (* ================================================================== counting *)
 Definition b2n (b : bool) : nat := if b then 1 else 0.
 
+(* lia on the arithmetic hypotheses only (ZifyBool, loaded by ClientSimBase, makes lia slow when
+   the context is full of boolean facts) *)
+Ltac keep_arith H :=
+  lazymatch type of H with
+  | @eq nat _ _ => idtac | @eq N _ _ => idtac
+  | le _ _ => idtac | lt _ _ => idtac | ge _ _ => idtac | gt _ _ => idtac
+  | N.le _ _ => idtac | N.lt _ _ => idtac
+  | _ => fail
+  end.
+Ltac alia :=
+  repeat match goal with
+         | H : ?P |- _ =>
+           lazymatch type of P with
+           | Prop => tryif keep_arith H then fail else clear H
+           end
+         end; lia.
+
 Section Cnt.
   Context {A : Type}.
   Definition cnt (f : A -> bool) (l : list A) : nat := length (filter f l).
@@ -709,43 +726,285 @@ Section User.
     assert (EI : forall id, CI s' id = CI s id) by (intro; unfold CI; rewrite Ei; reflexivity).
     assert (ES : forall id, (CS s' id <= CS s id)%nat).
     { intro id. pose proof (EP gS id) as H. unfold CS. destruct (N.eqb id0 id); cbn [andb b2n] in H.
-      - destruct (gS p1) eqn:G1; [rewrite (Ha eq_refl) in H|destruct (gS p0)]; cbn [andb b2n] in H; lia.
-      - rewrite !andb_false_r in H. cbn in H. lia. }
+      - destruct (gS p1) eqn:G1; [rewrite (Ha eq_refl) in H|destruct (gS p0)]; cbn [andb b2n] in H; alia.
+      - rewrite !andb_false_r in H. cbn in H. alia. }
     assert (ET : forall id, (TT s' id <= TT s id)%nat).
-    { intro id. unfold TT. rewrite EQ, EI. specialize (ES id). lia. }
+    { intro id. unfold TT. rewrite EQ, EI. specialize (ES id). alia. }
     assert (Eo : forall g id, id <> id0 -> cP g (calls s') id = cP g (calls s) id).
     { intros g id Hne. pose proof (EP g id) as H.
       assert (N.eqb id0 id = false) by (apply N.eqb_neq; congruence).
-      rewrite H0, !andb_false_r in H. cbn in H. lia. }
+      rewrite H0, !andb_false_r in H. cbn in H. alia. }
     constructor.
     - rewrite Ed. exact LD.
     - exact W'.
-    - intro id. specialize (LU id). specialize (ET id). lia.
-    - intros id H. rewrite En in H. specialize (LF id H). specialize (ET id). lia.
+    - intro id. specialize (LU id). specialize (ET id). alia.
+    - intros id H. rewrite En in H. specialize (LF id H). specialize (ET id). alia.
     - intros id H. rewrite Es. destruct (N.eqb id id0) eqn:E.
       + apply N.eqb_eq in E. subst id.
         destruct Hnd as [Z|[[G0 G1]|Hx]].
-        * specialize (ET id0). lia.
+        * specialize (ET id0). alia.
         * exfalso. pose proof (EP gS id0) as HP. rewrite N.eqb_refl, G0, G1 in HP. cbn in HP.
-          specialize (LU id0). unfold TT in H, LU. rewrite EQ, EI in H. unfold CS in *. lia.
-        * apply Hx, LN. specialize (ET id0). lia.
-      + apply LN. specialize (ET id). lia.
+          specialize (LU id0). unfold TT in H, LU. rewrite EQ, EI in H. unfold CS in *. alia.
+        * apply Hx, LN. specialize (ET id0). alia.
+      + apply LN. specialize (ET id). alia.
     - intros id H. rewrite EI in H. rewrite Ecan.
       destruct (N.eq_dec id id0) as [->|Hne].
       + destruct (LC id0 H) as [X|X]; [left; apply in_or_app; left; exact X|].
         pose proof (EP gA id0) as HP. rewrite N.eqb_refl in HP. unfold CA in *.
-        destruct (gA p0) eqn:G0; destruct (gA p1) eqn:G1; cbn [andb b2n] in HP; try (right; lia).
-        destruct (Hcov eq_refl eq_refl) as [Y|Y]; [left; apply in_or_app; right; exact Y|lia].
+        destruct (gA p0) eqn:G0; destruct (gA p1) eqn:G1; cbn [andb b2n] in HP; try (right; alia).
+        destruct (Hcov eq_refl eq_refl) as [Y|Y]; [left; apply in_or_app; right; exact Y|alia].
       + destruct (LC id H) as [X|X]; [left; apply in_or_app; left; exact X|].
         right. unfold CA in *. rewrite (Eo gA id Hne). exact X.
     - intros id H. rewrite EQ in H. rewrite Es.
       destruct (N.eqb id id0) eqn:E.
       + apply N.eqb_eq in E. subst id.
-        destruct Hrx as [Z|[Rx|[Gw Rx]]]; [lia|left; exact Rx|].
+        destruct Hrx as [Z|[Rx|[Gw Rx]]]; [alia|left; exact Rx|].
         destruct (LQ id0 H) as [X|X]; [left; apply Rx, X|right].
         pose proof (EP gW id0) as HP. rewrite N.eqb_refl in HP. unfold CW in *.
-        destruct (gW p0) eqn:G0; [rewrite (Gw eq_refl) in HP|destruct (gW p1)]; cbn [andb b2n] in HP; lia.
+        destruct (gW p0) eqn:G0; [rewrite (Gw eq_refl) in HP|destruct (gW p1)]; cbn [andb b2n] in HP; alia.
       + apply N.eqb_neq in E. destruct (LQ id H) as [X|X]; [left; exact X|right].
         unfold CW in *. rewrite (Eo gW id E). exact X.
+  Qed.
+
+  Lemma slot_done_tx_gone x r : slot_done {| sl_rx_closed := r; sl_val := sl_val x; sl_tx_gone := sl_tx_gone x |} = slot_done x.
+  Proof. reflexivity. Qed.
+
+  Lemma winv_phase_not_waiter s s' i k p1 :
+    winv s -> nth_error (calls s) i = Some k -> c_phase k <> PAcquiring ->
+    calls s' = phase_calls (calls s) i p1 -> waiters s' = waiters s -> winv s'.
+  Proof.
+    intros W Hk Hp Ec Ew. eapply winv_phase_other; [exact W|exact Ec|exact Ew|].
+    eapply winv_not_acq; eassumption.
+  Qed.
+
+  Lemma TT_pos_staged s i k :
+    nth_error (calls s) i = Some k -> gS (c_phase k) = true -> (1 <= CS s (c_id k))%nat.
+  Proof. intros Hk G. apply cP_pos. exists i, k. auto. Qed.
+
+  (* ---------------------------------------------------------------- ResponseGuard::response *)
+  Lemma Live_poll_slot s i k :
+    Live s -> nth_error (calls s) i = Some k -> c_phase k = PAwaiting ->
+    Live (snd (poll_slot s i (c_id k))).
+  Proof.
+    intros L Hk Hp. unfold poll_slot.
+    assert (Done : slot_done (get_slot s (c_id k)) = true ->
+                   Live (set_phase (slot_rx_close s (c_id k)) i PDone)).
+    { intro D.
+      eapply (Live_phase s _ i k PDone
+                {| sl_rx_closed := true; sl_val := sl_val (get_slot s (c_id k));
+                   sl_tx_gone := sl_tx_gone (get_slot s (c_id k)) |} []); try exact L; try exact Hk.
+      - rewrite set_phase_alt. reflexivity.
+      - rewrite set_phase_alt. reflexivity.
+      - rewrite set_phase_alt. reflexivity.
+      - intro id. rewrite set_phase_alt. unfold slot_rx_close.
+        change (get_slot (upd_calls ?a ?b) id) with (get_slot a id). apply get_set_slot.
+      - rewrite set_phase_alt, app_nil_r. reflexivity.
+      - rewrite set_phase_alt. reflexivity.
+      - rewrite set_phase_alt. reflexivity.
+      - eapply winv_phase_not_waiter; [apply L|exact Hk|congruence| |];
+          rewrite set_phase_alt; reflexivity.
+      - discriminate.
+      - right; right. intro X. unfold slot_done in *. cbn [sl_val sl_tx_gone]. exact X.
+      - right; left. reflexivity.
+      - intros _ _. right. destruct (CI s (c_id k)) eqn:E; [reflexivity|exfalso].
+        assert (X : slot_done (get_slot s (c_id k)) = false) by (apply L; unfold TT; lia).
+        congruence. }
+    destruct (sl_val (get_slot s (c_id k))) eqn:V; cbn [snd].
+    - apply Done. unfold slot_done. rewrite V. reflexivity.
+    - destruct (sl_tx_gone (get_slot s (c_id k))) eqn:G; cbn [snd]; [|exact L].
+      apply Done. unfold slot_done. rewrite V. exact G.
+  Qed.
+
+  (* ---------------------------------------------------------------- a call that ends in `send` *)
+  Lemma Live_fail_shutdown s i k :
+    Live s -> nth_error (calls s) i = Some k ->
+    gS (c_phase k) = true \/ TT s (c_id k) = 0%nat -> gA (c_phase k) = false ->
+    c_phase k <> PAcquiring ->
+    Live (snd (fail_shutdown s i (c_id k))).
+  Proof.
+    intros L Hk Hs Hga Hp. unfold fail_shutdown. cbn [snd].
+    eapply (Live_phase s _ i k PDone
+              {| sl_rx_closed := true; sl_val := sl_val (get_slot s (c_id k)); sl_tx_gone := true |}
+              [c_id k]); try exact L; try exact Hk.
+    - rewrite set_phase_alt, push_cancel_alt. reflexivity.
+    - rewrite set_phase_alt, push_cancel_alt. reflexivity.
+    - rewrite set_phase_alt, push_cancel_alt. reflexivity.
+    - intro id. rewrite set_phase_alt, push_cancel_alt.
+      change (get_slot (upd_calls (upd_cancels ?a ?c) ?b) id) with (get_slot a id).
+      unfold slot_rx_close. rewrite get_set_slot. unfold slot_tx_drop. rewrite !get_set_slot.
+      destruct (N.eqb id (c_id k)) eqn:E; [|reflexivity]. rewrite N.eqb_refl. reflexivity.
+    - rewrite set_phase_alt, push_cancel_alt.
+      cbn [cancels upd_calls upd_cancels dropped slot_rx_close slot_tx_drop set_slot upd_slots].
+      rewrite (l_dropped _ L). reflexivity.
+    - rewrite set_phase_alt, push_cancel_alt. reflexivity.
+    - rewrite set_phase_alt, push_cancel_alt. reflexivity.
+    - eapply winv_phase_not_waiter; [apply L|exact Hk|exact Hp| |];
+        rewrite set_phase_alt, push_cancel_alt; reflexivity.
+    - discriminate.
+    - destruct Hs as [G|Z]; [right; left; split; [exact G|reflexivity]|left; exact Z].
+    - right; left. reflexivity.
+    - intros G. congruence.
+  Qed.
+
+  (* ---------------------------------------------------------------- guard drop *)
+  Lemma get_slot_same_if s id0 id :
+    get_slot s id = if N.eqb id id0 then get_slot s id0 else get_slot s id.
+  Proof. destruct (N.eqb id id0) eqn:E; [apply N.eqb_eq in E; subst; reflexivity|reflexivity]. Qed.
+
+  Lemma Live_release_permit s : Live s -> Live (release_permit s).
+  Proof.
+    intro L. pose proof (l_w _ L) as W.
+    pose proof (release_permit_other s) as (R1 & R2 & R3 & R4 & R5 & R6 & R7).
+    destruct (release_permit_shape s W) as [(_ & Ec & Ew)|(w & ws & k & E & Hk & Hp & Ec & Ew)].
+    - eapply Live_eq; [exact Ec|exact R1|exact R2|exact R3|exact R4| |exact R5|exact R6|exact L].
+      destruct (waiters s) eqn:E; [unfold release_permit; rewrite E; reflexivity|].
+      unfold release_permit in Ew. rewrite E in Ew. rewrite set_phase_alt in Ew. cbn in Ew.
+      unfold release_permit. rewrite E. exfalso.
+      destruct (release_permit_shape s W) as [(X & _)|(? & ? & ? & X & _)]; congruence.
+    - eapply (Live_phase s _ w k PAssigned (get_slot s (c_id k)) []); try exact L; try exact Hk;
+        try assumption.
+      + intro id. unfold get_slot at 1. rewrite R3. apply get_slot_same_if.
+      + rewrite R4, app_nil_r. reflexivity.
+      + apply winv_release_permit, W.
+      + intros _. rewrite Hp. reflexivity.
+      + right; right. auto.
+      + right; right. rewrite Hp. split; [discriminate|auto].
+      + rewrite Hp. discriminate.
+  Qed.
+
+  Lemma TT_retire s s' i k p1 :
+    Live s -> nth_error (calls s) i = Some k -> gS (c_phase k) = true -> gS p1 = false ->
+    calls s' = phase_calls (calls s) i p1 -> queue s' = queue s -> inflight s' = inflight s ->
+    TT s' (c_id k) = 0%nat.
+  Proof.
+    intros L Hk G0 G1 Ec Eq Ei.
+    pose proof (cP_phase_calls gS _ _ _ p1 (c_id k) Hk) as H. rewrite N.eqb_refl, G0, G1 in H.
+    cbn [andb b2n] in H. pose proof (l_uniq _ L (c_id k)) as U. unfold TT, CS, CQ, CI in *.
+    rewrite Ec, Eq, Ei. lia.
+  Qed.
+
+  Lemma NoDup_filter' {A} (f : A -> bool) l : NoDup l -> NoDup (filter f l).
+  Proof.
+    induction l as [|x r IH]; cbn; [constructor|]. intro H. inversion H as [|? ? Hn Hd]; subst.
+    destruct (f x); [|apply IH, Hd]. constructor; [|apply IH, Hd].
+    intro Hin. apply filter_In in Hin. apply Hn, Hin.
+  Qed.
+
+  Lemma Live_guard_close s i : Live s -> Live (guard_close s i).
+  Proof.
+    intro L. unfold guard_close. destruct (nth_error (calls s) i) as [k|] eqn:Hk; [|exact L].
+    destruct (c_phase k) eqn:Hp; try exact L.
+    - (* PNew *)
+      eapply (Live_phase s _ i k PGone (get_slot s (c_id k)) []); try exact L; try exact Hk;
+        try (rewrite set_phase_alt; reflexivity).
+      + intro id. rewrite set_phase_alt. change (get_slot (upd_calls ?a ?b) id) with (get_slot a id).
+        apply get_slot_same_if.
+      + rewrite set_phase_alt, app_nil_r. reflexivity.
+      + eapply winv_phase_not_waiter; [apply L|exact Hk|congruence| |];
+          rewrite set_phase_alt; reflexivity.
+      + discriminate.
+      + right; right; auto.
+      + right; right. rewrite Hp. split; [discriminate|auto].
+      + rewrite Hp. discriminate.
+    - (* PAcquiring *)
+      eapply (Live_phase s _ i k PClosing
+                {| sl_rx_closed := true; sl_val := sl_val (get_slot s (c_id k)); sl_tx_gone := true |}
+                []); try exact L; try exact Hk;
+        try (rewrite set_phase_alt; reflexivity).
+      + intro id. rewrite set_phase_alt.
+        change (get_slot (upd_calls ?a ?b) id) with (get_slot a id).
+        unfold slot_rx_close. rewrite get_set_slot. unfold slot_tx_drop. rewrite !get_set_slot.
+        destruct (N.eqb id (c_id k)) eqn:E; [|reflexivity]. rewrite N.eqb_refl. reflexivity.
+      + rewrite set_phase_alt, app_nil_r. reflexivity.
+      + rewrite set_phase_alt. destruct (l_w _ L) as [A N]. constructor.
+        * cbn [waiters calls upd_calls slot_rx_close slot_tx_drop set_slot upd_slots upd_q].
+          intros w Hw. unfold remove_waiter in Hw. apply filter_In in Hw. destruct Hw as [Hw Hne].
+          destruct (A w Hw) as (c & Hc & Hpc). exists c. split; [|exact Hpc].
+          rewrite nth_error_phase_calls. destruct (Nat.eqb i w) eqn:E; [|exact Hc].
+          apply Nat.eqb_eq in E. subst w. rewrite Nat.eqb_refl in Hne. discriminate.
+        * cbn [waiters calls upd_calls slot_rx_close slot_tx_drop set_slot upd_slots upd_q].
+          apply NoDup_filter', N.
+      + discriminate.
+      + right; left. rewrite Hp. split; reflexivity.
+      + right; left. reflexivity.
+      + rewrite Hp. discriminate.
+    - (* PAssigned: phase, then the permit, then the oneshot *)
+      assert (LA : Live (set_phase s i PClosing)).
+      { eapply (Live_phase s _ i k PClosing (get_slot s (c_id k)) []); try exact L; try exact Hk;
+          try (rewrite set_phase_alt; reflexivity).
+        - intro id. rewrite set_phase_alt. change (get_slot (upd_calls ?a ?b) id) with (get_slot a id).
+          apply get_slot_same_if.
+        - rewrite set_phase_alt, app_nil_r. reflexivity.
+        - eapply winv_phase_not_waiter; [apply L|exact Hk|congruence| |];
+            rewrite set_phase_alt; reflexivity.
+        - discriminate.
+        - right; left. rewrite Hp. split; reflexivity.
+        - right; right. rewrite Hp. split; [discriminate|auto].
+        - rewrite Hp. discriminate. }
+      assert (ZA : TT (set_phase s i PClosing) (c_id k) = 0%nat).
+      { eapply (TT_retire s _ i k PClosing); try exact L; try exact Hk;
+          try (rewrite set_phase_alt; reflexivity). rewrite Hp. reflexivity. }
+      set (s1 := set_phase s i PClosing) in *.
+      set (s2 := if rx_closed s1 then upd_q s1 (S (permits s1)) (queue s1) (waiters s1) true
+                 else release_permit s1).
+      assert (LB : Live s2 /\ TT s2 (c_id k) = 0%nat).
+      { unfold s2. destruct (rx_closed s1).
+        - split; [eapply Live_eq; [..|exact LA]; reflexivity|exact ZA].
+        - split; [apply Live_release_permit, LA|].
+          pose proof (release_permit_other s1) as (R1 & R2 & _).
+          unfold TT, CS, CQ, CI in *. rewrite R1, R2.
+          rewrite (cP_release_permit gS s1 (c_id k) (l_w _ LA) eq_refl). exact ZA. }
+      destruct LB as [LB ZB].
+      unfold slot_rx_close. apply Live_set_slot_untracked; [|exact ZB].
+      unfold slot_tx_drop. apply Live_set_slot_untracked; [exact LB|exact ZB].
+    - (* PAcqClosed *)
+      eapply (Live_phase s _ i k PClosing
+                {| sl_rx_closed := true; sl_val := sl_val (get_slot s (c_id k)); sl_tx_gone := true |}
+                []); try exact L; try exact Hk;
+        try (rewrite set_phase_alt; reflexivity).
+      + intro id. rewrite set_phase_alt.
+        change (get_slot (upd_calls ?a ?b) id) with (get_slot a id).
+        unfold slot_rx_close. rewrite get_set_slot. unfold slot_tx_drop. rewrite !get_set_slot.
+        destruct (N.eqb id (c_id k)) eqn:E; [|reflexivity]. rewrite N.eqb_refl. reflexivity.
+      + rewrite set_phase_alt, app_nil_r. reflexivity.
+      + eapply winv_phase_not_waiter; [apply L|exact Hk|congruence| |];
+          rewrite set_phase_alt; reflexivity.
+      + discriminate.
+      + right; left. rewrite Hp. split; reflexivity.
+      + right; left. reflexivity.
+      + rewrite Hp. discriminate.
+    - (* PAwaiting *)
+      eapply (Live_phase s _ i k PClosing
+                {| sl_rx_closed := true; sl_val := sl_val (get_slot s (c_id k));
+                   sl_tx_gone := sl_tx_gone (get_slot s (c_id k)) |} []); try exact L; try exact Hk;
+        try (rewrite set_phase_alt; reflexivity).
+      + intro id. rewrite set_phase_alt. unfold slot_rx_close.
+        change (get_slot (upd_calls ?a ?b) id) with (get_slot a id). apply get_set_slot.
+      + rewrite set_phase_alt, app_nil_r. reflexivity.
+      + eapply winv_phase_not_waiter; [apply L|exact Hk|congruence| |];
+          rewrite set_phase_alt; reflexivity.
+      + discriminate.
+      + right; right. intro X. exact X.
+      + right; left. reflexivity.
+      + intros _. discriminate.
+  Qed.
+
+  Lemma Live_guard_cancel s i : Live s -> Live (guard_cancel s i).
+  Proof.
+    intro L. unfold guard_cancel. destruct (nth_error (calls s) i) as [k|] eqn:Hk; [|exact L].
+    destruct (c_phase k) eqn:Hp; try exact L.
+    eapply (Live_phase s _ i k PGone (get_slot s (c_id k)) [c_id k]); try exact L; try exact Hk;
+      try (rewrite set_phase_alt, push_cancel_alt; reflexivity).
+    - intro id. rewrite set_phase_alt, push_cancel_alt.
+      change (get_slot (upd_calls (upd_cancels ?a ?c) ?b) id) with (get_slot a id).
+      apply get_slot_same_if.
+    - rewrite set_phase_alt, push_cancel_alt. cbn [cancels upd_calls upd_cancels].
+      rewrite (l_dropped _ L). reflexivity.
+    - eapply winv_phase_not_waiter; [apply L|exact Hk|congruence| |];
+        rewrite set_phase_alt, push_cancel_alt; reflexivity.
+    - discriminate.
+    - right; right; auto.
+    - right; right. rewrite Hp. split; [discriminate|auto].
+    - intros _ _. left. left. reflexivity.
   Qed.
 End User.
